@@ -53,6 +53,10 @@ _MORE = {
  "C11": dict(cat="model_checking", tech="exhaustive history enumeration (all ordered pairs/triples of API calls) x explorable sync.Pool (every assignment of pooled objects to Get calls with <=2 reuse events + all-reuse), fresh-process results as oracle",
    text="Every ordered pair (thorough: triples over a 12-call core) of a 24-call alphabet chosen to collide (equal/greater/smaller macroblock counts, options that must be reset, methods, alpha, dithering, source types, both codecs, decodes, animation); inside each history every Pool.Get is a choice point (which pooled object, or none). Each result must equal the same call's result as the first call of a fresh process (computed in child processes) and earlier results must stay unchanged.",
    note="vsync.Pool replaces sync.Pool (the runtime's per-P caches and GC clearing are owned by the harness); worker count pinned to 1; histories deeper than 2 (3) calls and >2 reuse events only through the all-reuse schedule.", ref="3/C11"),
+
+ "C12": dict(cat="exploration", tech="exhaustive enumeration of per-call-site worker-count vectors (single and pairwise deviations, all uniform values 1..16) on the real code under a deterministic schedule",
+   text="Every runtime.GOMAXPROCS(0) call site in the current tree is turned into a hook by the instrumenter; for 12 (picture, options) cases above every parallel threshold the check runs the all-ones vector, every single site at {2,3,5,16}, every pair of sites at {2,5} and every uniform vector 2..16, under the controlled scheduler's default schedule with pools that never reuse, so the output is a function of the worker vector alone; bytes/pixels must equal the all-ones result.",
+   note="GOMAXPROCS above 16, and pictures/options outside the case list, are not covered; schedule and history dependence are C10's and C11's subjects.", ref="3/C12"),
 }
 CHECKS.update(_MORE)
 NA = {}
